@@ -8,6 +8,11 @@ ctor_<crit>    constructor-level clauses on harness-made data: definition (oracl
                exact rational arithmetic), agreement of the subset / integer / binary / real encodings,
                listing-order and rescaling invariance, evalfn = weights x transformations(latent), evaluate()
                row-wise equal to evalfn, nlatent = len(latent)
+hist_<crit>    histories on one problem object per encoding: built, verified, then re-declared through public setters (subset
+               size ndecn, single data attributes, all data, number of candidates, weights, transformations and their kwargs,
+               decision-space arrays) and verified after every assignment with a decision vector of the size THEN declared
+               against the definition on the data THEN declared; every factory-made problem gets a short history of the same kind
+               (clauses <crit>.history.* and <crit>.factory.history.*)
 fact_<group>   factory clauses: problems built from a population hold that population's data in its taxon order; every
                factory of every class is called with three distinct recording transformations (own kwargs each) and weights,
                and evalfn of the factory-made problem = declared weights x declared transformations(latent, **declared kwargs)
@@ -51,6 +56,10 @@ ASSUMPTIONS = [
     "UC factory: inbred parents, nself = 0, Haldane map function (the two-way DH variance formula's own domain)",
     "haplotype-block factories: layouts with a marker on an interior bin edge or with an empty bin are kept out (C18's subject)",
     "transformations handed to factories accept **kwargs (like every transformation shipped in trans.py) and are pure functions",
+    "histories: a problem is re-declared only by assignment to its public properties, in an order every setter accepts (size of the "
+    "decision space, then the space, then the data); the clauses are asserted for complete re-declarations only (after the number of "
+    "latent variables changed, the transformations and weights are re-declared for it before the problem is used); arrays and "
+    "dictionaries held by a problem are never edited in place (whether a problem copies its inputs is not part of the property)",
     "fact_hap_large / fact_uc_large: fixed size lists; the seeds of their populations are derived from VERIF_SEED and stored in the case",
 ]
 
@@ -316,6 +325,7 @@ def factory_eval(ctx, crit, enc, fname, prob, rec, tr, x):
         ctx.check(numpy.array_equal(prob.obj_wt, _np(w)), crit + ".factory.forwards_weights",
                   lambda: "%s %s %s: obj_wt=%s, given %s" % (crit, enc, fname, prob.obj_wt, w))
     check_eval(ctx, crit, enc, prob, rec, tr, [("factory", x)], pre=crit + ".factory.", what=fname + " of ")
+    factory_history(ctx, crit, enc, fname, prob, rec, tr, x)
 
 
 # ----------------------------------------------------------------------------------------------------------------
@@ -327,18 +337,20 @@ MATE = {"OHV", "UC", "EMBV"}
 SETVALUED = {"OPV", "GB", "PAFD", "PAU", "MOGS"}
 
 
-@st.composite
-def ctor_case(draw, crit):
-    t = draw(st.integers(1, 3))
-    data = {}
+def _draw_size(draw, crit, ndmax=9, several=False):
+    """number of decision elements (taxa, or cross configurations of a drawn small cross map) -> (nd, {"xmap": ...} or {});
+    `several`: at least two of them"""
     if crit in MATE:
         ntaxa = draw(st.integers(2, 4))
         unique = draw(st.booleans())
-        xmap = D.cross_map(ntaxa, 2, unique)
-        nd = len(xmap)
-        data["xmap"] = xmap
-    else:
-        nd = draw(st.integers(2, 9))
+        xmap = D.cross_map(ntaxa, 2, unique and not (several and ntaxa == 2))
+        return len(xmap), {"xmap": xmap}
+    return draw(st.integers(2, ndmax)), {}
+
+
+def _draw_data(draw, crit, nd, t, data, like=None):
+    """criterion data for `nd` decision elements and `t` traits, added to `data` -> (nd, nlatent).
+    `like`: an earlier data set of the same criterion whose marker number / ploidy are kept (single attributes of it get replaced)"""
     if crit in LINEAR_ARG:
         data["v"] = _table(draw, nd, t)
         nlat = t
@@ -370,8 +382,8 @@ def ctor_case(draw, crit):
         data["H"] = [[[[draw(_num()) for _ in range(t)] for _ in range(nb)] for _ in range(nd)] for _ in range(m)]
         nlat = t
     elif crit in ("PAFD", "PAU", "MOGS"):
-        ploidy = draw(st.sampled_from([2, 2, 1, 4]))
-        p = draw(st.integers(1, 6))
+        ploidy = int(like["ploidy"]) if like else draw(st.sampled_from([2, 2, 1, 4]))
+        p = len(like["mkrwt"]) if like else draw(st.integers(1, 6))
         cols = []
         for _ in range(p):
             k = draw(st.sampled_from(["all0", "allmax", "free", "free", "hom"]))
@@ -390,6 +402,14 @@ def ctor_case(draw, crit):
         nlat = 2 * t if crit == "MOGS" else t
     else:
         raise AssertionError(crit)
+    return nd, nlat
+
+
+@st.composite
+def ctor_case(draw, crit):
+    t = draw(st.integers(1, 3))
+    nd, data = _draw_size(draw, crit)
+    nd, nlat = _draw_data(draw, crit, nd, t, data)
     dec = draw(_decision(nd, force_binary=(crit in SETVALUED), kmin=1))
     if crit == "GB":
         k = sum(1 for c in dec["cnt"] if c > 0)
@@ -737,6 +757,448 @@ def check_eval(ctx, crit, enc, prob, rec, tr, vecs, pre="", what=""):
             src = rows[i] if i < len(rows) else rows[0]
             ctx.check(numpy.array_equal(numpy.asarray(M)[i], numpy.asarray(src[j]), equal_nan=True), pre + "evaluate.row_equals_evalfn",
                       lambda: "row %d of %s: %s, evalfn gives %s" % (i, key, numpy.asarray(M)[i].tolist(), numpy.asarray(src[j]).tolist()))
+
+
+# ----------------------------------------------------------------------------------------------------------------
+# histories: a problem is built, used, re-declared through its public setters, used again
+# ----------------------------------------------------------------------------------------------------------------
+# The property is quantified over the decision vectors of the DECLARED decision space and over the declared weights,
+# transformations and data; all of these are public attributes with setters (ndecn / decn_space* in
+# pybrops.opt.prob.Problem, weights there too, transformations and their kwargs in SelectionProblem, the criterion data in
+# the criterion's mixin).  After any sequence of assignments that leaves the problem in a consistent state, the clauses
+# hold for the values in force at the time of the call.  Only assignments through setters are made (arrays or dictionaries
+# the problem holds are never edited in place: whether a problem copies what it is given is not part of the property).
+PROP_NAME = dict(LINEAR_ARG, WGS="gwgebv")          # name of the settable property (WGS: constructor argument `wgebv`)
+FREQ = {"PAFD", "PAU", "MOGS"}
+
+
+def crit_attrs(crit):
+    """[(settable data attribute, keys of the harness' data model it carries)] in an order the setters accept"""
+    if crit in LINEAR_ARG:
+        return [(PROP_NAME[crit], ["v"])]
+    return {"Family": [("ebv", ["v"]), ("familyid", ["fam"])],
+            "OCS": [("ebv", ["v"]), ("C", ["C"])],
+            "MGR": [("C", ["C"])], "MEH": [("C", ["C"])], "L2": [("C", ["Ct"])], "L1": [("V", ["V"])],
+            "OPV": [("haplomat", ["H"])], "GB": [("haplomat", ["H"]), ("nbestfndr", ["nbest"])],
+            "PAFD": [("ploidy", ["ploidy"]), ("geno", ["geno"]), ("mkrwt", ["mkrwt"]), ("tfreq", ["tfreq"])],
+            "PAU": [("ploidy", ["ploidy"]), ("geno", ["geno"]), ("mkrwt", ["mkrwt"]), ("tfreq", ["tfreq"])],
+            "MOGS": [("ploidy", ["ploidy"]), ("geno", ["geno"]), ("mkrwt", ["mkrwt"]), ("tfreq", ["tfreq"])]}[crit]
+
+
+def attr_value(crit, data, name):
+    """fresh value for the data attribute `name` from the data model"""
+    if name == "nbestfndr":
+        return int(data["nbest"])
+    if name == "ploidy":
+        return int(data["ploidy"])
+    if name == "decn_space_xmap":
+        return _np(data["xmap"], int)
+    key = dict(crit_attrs(crit))[name][0]
+    return _np(data[key], {"geno": "int8", "fam": int}.get(key, float))
+
+
+def nlat_of(crit, data):
+    if crit in LINEAR_ARG:
+        return len(data["v"][0])
+    if crit == "Family":
+        return len(data["v"][0]) + len(set(data["fam"]))
+    if crit == "OCS":
+        return 1 + len(data["v"][0])
+    if crit in ("MGR", "MEH"):
+        return 1
+    if crit == "L2":
+        return len(data["Ct"])
+    if crit == "L1":
+        return len(data["V"])
+    if crit in ("OPV", "GB"):
+        return len(data["H"][0][0][0])
+    return (2 if crit == "MOGS" else 1) * len(data["mkrwt"][0])
+
+
+def _hist_decision():
+    return st.fixed_dictionaries({
+        "perm": st.integers(0, 10 ** 6), "cnt": st.lists(st.integers(1, 3), min_size=6, max_size=6),
+        "counts": st.booleans(), "nbest_raw": st.integers(0, 10),
+        "scale": st.one_of(st.floats(1e-3, 1e3, allow_nan=False), st.sampled_from([1.0, 0.1, 3.0, 1e-6, 1e6]))})
+
+
+HIST_OPS = ["ndecn", "ndecn", "ndecn", "attr", "attr", "attr", "data_all", "data_all", "resize", "resize", "wt", "wt", "kwargs", "kwargs",
+            "trans", "decn_space", "bounds", "elementwise"]
+
+
+@st.composite
+def hist_case(draw, crit):
+    t = draw(st.integers(1, 3))
+    nd, data = _draw_size(draw, crit, ndmax=6, several=True)
+    nd, _nlat = _draw_data(draw, crit, nd, t, data)
+    names = [a for a, _k in crit_attrs(crit) if a != "ploidy"]
+    ops, ndata = [], 0
+    cur = {"nd": nd, "t": t, "data": data}
+    # the kinds of the operations, the roles and the attribute they address are the digits of two integers drawn from wide ranges,
+    # offset by the other wide-range integers of the case (small enumerations drawn one by one, and single integers too, come
+    # out strongly correlated between the examples of a short run: the engine makes new examples by copying parts of old ones)
+    nops = draw(st.integers(1, 4))
+    decs = [draw(_hist_decision()) for _ in range(nops + 1)]
+    k_raw = draw(st.integers(0, 50))
+    salt = sum(d["perm"] for d in decs) + k_raw
+    mix, mix2 = draw(st.integers(0, len(HIST_OPS) ** 4 - 1)) + salt, draw(st.integers(0, 12 ** 4 - 1)) + salt
+    for i in range(nops):
+        kind = HIST_OPS[(mix // len(HIST_OPS) ** i) % len(HIST_OPS)]
+        if i == 0 and salt % 2 == 0 and "subset" in CLASSES.get(crit, {}):
+            kind = "ndecn"                                   # half of the histories start by declaring another subset size
+        sel = (mix2 // 12 ** i) % 12
+        if kind in ("attr", "data_all", "resize") and ndata >= 2:
+            kind = "ndecn"                                   # at most two drawn data sets per history (size of the case)
+        if kind == "ndecn":
+            op = {"op": "ndecn", "raw": draw(st.integers(0, 50)), "bounds": draw(st.booleans())}
+        elif kind == "attr":
+            name = names[sel % len(names)]
+            if name == "nbestfndr":
+                op = {"op": "attr", "name": name, "raw": draw(st.integers(0, 10))}
+            else:
+                alt = {}
+                _draw_data(draw, crit, cur["nd"], cur["t"], alt, like=cur["data"] if crit in FREQ else None)
+                keys = dict(crit_attrs(crit))[name]
+                op = {"op": "attr", "name": name, "data": {k: alt[k] for k in keys}}
+                cur["data"] = dict(cur["data"], **op["data"])
+                ndata += 1
+        elif kind == "data_all":
+            t2 = draw(st.integers(1, 3))
+            alt = {"xmap": cur["data"]["xmap"]} if crit in MATE else {}
+            _draw_data(draw, crit, cur["nd"], t2, alt)
+            op = {"op": "data_all", "data": alt}
+            cur.update(t=t2, data=alt)
+            ndata += 1
+        elif kind == "resize":
+            t2 = draw(st.integers(1, 3))
+            nd2, alt = _draw_size(draw, crit, ndmax=6, several=True)
+            nd2, _n = _draw_data(draw, crit, nd2, t2, alt)
+            op = {"op": "resize", "nd": nd2, "data": alt}
+            cur.update(nd=nd2, t=t2, data=alt)
+            ndata += 1
+        elif kind == "wt":
+            w = draw(st.sampled_from(["none", "scalar", "array", "array"]))
+            op = {"op": "wt", "role": ["obj", "obj", "ineq", "eq"][sel % 4],
+                  "wt": None if w == "none" else (draw(st.sampled_from([-1.0, 2.0, -0.5, 4.0])) if w == "scalar" else
+                                                  [draw(st.sampled_from([1.0, -1.0, 2.0, -3.0, 0.5, 1.5, 4.0])) for _ in range(NLAT_MAX)])}
+        elif kind == "kwargs":
+            op = {"op": "kwargs", "role": ["obj", "ineq", "eq"][sel % 3],
+                  "kw": draw(st.sampled_from(["own", "own", "empty", "none"])),
+                  "shift": draw(st.sampled_from([0.25, -2.0, 5.0, 7.5, -8.0])),
+                  "w": [draw(_num()) for _ in range(NLAT_MAX)], "target": draw(st.sampled_from([2.0, 0.0, 5.0]))}
+        elif kind == "trans":
+            op = {"op": "trans", "ftr": draw(_fact_transforms())}
+        else:
+            op = {"op": kind, "raw": draw(st.integers(0, 10 ** 6))}
+        ops.append(op)
+    return {"crit": crit, "nd": nd, "t": t, "data": data, "ftr": draw(_fact_transforms()), "k_raw": k_raw, "ops": ops, "decs": decs}
+
+
+def _pick_k(raw, nd):
+    """number of selected elements: usually 2 or 3 (so that averaging is exercised), never more than nd"""
+    return min(nd, [2, 3, 1, 2, 3, 1 + raw % nd][raw % 6])
+
+
+def _space_values(enc, nd, k, raw=0):
+    """legal values for decn_space / decn_space_lower / decn_space_upper of a problem over nd elements (subset: k of them).
+    `raw` varies what is free to vary (order of the candidate listing; integer / real upper bounds)"""
+    if enc == "subset":
+        cand = numpy.arange(nd) if raw == 0 else numpy.array(_perm(raw, nd), dtype=int)
+        return cand, numpy.repeat(0, k), numpy.repeat(nd - 1, k)
+    if enc == "integer":
+        hi = 3 + raw % 3
+        return numpy.stack([numpy.repeat(0, nd), numpy.repeat(hi, nd)]), numpy.repeat(0, nd), numpy.repeat(hi, nd)
+    if enc == "binary":
+        return numpy.stack([numpy.repeat(0, nd), numpy.repeat(1, nd)]), numpy.repeat(0, nd), numpy.repeat(1, nd)
+    hi = 1.0 + float(raw % 2)
+    return numpy.stack([numpy.repeat(0.0, nd), numpy.repeat(hi, nd)]), numpy.repeat(0.0, nd), numpy.repeat(hi, nd)
+
+
+ROLE_KEY = {"obj": ("obj", "nobj"), "ineq": ("ineqcv", "nineqcv"), "eq": ("eqcv", "neqcv")}
+
+
+class History:
+    """one problem object, the harness' model of what has been declared on it (data, transformations, sizes), the
+    operations that re-declare something through public setters, and the verification of the clauses against the model"""
+
+    def __init__(self, ctx, crit, enc, prob, rec, data, tr, nd, k, pre, what="", ftr=None):
+        self.ctx, self.crit, self.enc, self.prob, self.rec = ctx, crit, enc, prob, rec
+        self.data, self.tr, self.ftr, self.nd, self.k = dict(data), tr, ftr, nd, k
+        self.pre, self.what = pre, what
+        self.nlat = nlat_of(crit, data)
+        self.done = []
+
+    # ---- re-declaration of the transformations -------------------------------------------------------------------
+    def declare_role(self, role, only=None):
+        key, nkey = ROLE_KEY[role]
+        fn, fkw = make_trans(self.tr[role], self.rec, role)
+        vals = [(nkey, int(self.tr[role]["n"])), (key + "_wt", _wt_arg(self.tr[role + "_wt"])), (key + "_trans", fn), (key + "_trans_kwargs", fkw)]
+        for name, v in vals:
+            if only is None or name.endswith(only):
+                setattr(self.prob, name, v)
+
+    def recut(self):
+        self.tr = fact_tr(self.ftr, self.nlat)
+
+    def data_changed(self):
+        """after a data assignment: a different number of latent variables needs the transformations re-declared for it"""
+        n = nlat_of(self.crit, self.data)
+        if n != self.nlat:
+            self.nlat = n
+            self.recut()
+            for role in ROLE_KEY:
+                self.declare_role(role)
+            self.ctx.label("hist:nlatent_changed")
+        if self.crit == "GB" and int(self.data["nbest"]) > self.k:
+            self.set_nbest(0)
+
+    def set_nbest(self, raw):
+        self.data["nbest"] = 1 + raw % self.k
+        self.prob.nbestfndr = int(self.data["nbest"])
+
+    def assign(self, names):
+        for name, _keys in crit_attrs(self.crit):
+            if name in names:
+                setattr(self.prob, name, attr_value(self.crit, self.data, name))
+
+    # ---- operations ------------------------------------------------------------------------------------------------
+    def apply(self, op):
+        kind, prob, enc = op["op"], self.prob, self.enc
+        did = kind
+        if kind == "ndecn":
+            if enc != "subset" or self.nd < 2:
+                did = "ndecn(n/a)"
+            else:
+                k2 = 1 + op["raw"] % self.nd
+                if k2 == self.k:
+                    k2 = 1 + k2 % self.nd
+                self.ctx.label("hist:ndecn_larger" if k2 > self.k else "hist:ndecn_smaller")
+                self.k = k2
+                prob.ndecn = k2
+                if op.get("bounds"):
+                    _c, lo, hi = _space_values(enc, self.nd, k2)
+                    prob.decn_space_lower, prob.decn_space_upper = lo, hi
+                if self.crit == "GB" and int(self.data["nbest"]) > k2:
+                    self.set_nbest(op["raw"])
+        elif kind == "attr":
+            if op["name"] == "nbestfndr":
+                self.set_nbest(op["raw"])
+            else:
+                self.data.update(op["data"])
+                self.assign([op["name"]])
+                self.data_changed()
+            did = "attr:" + op["name"]
+        elif kind == "data_all":
+            nb = self.data.get("nbest")
+            self.data = dict(op["data"])
+            if nb is not None:
+                self.data["nbest"] = nb
+            self.assign([a for a, _k in crit_attrs(self.crit)])
+            self.data_changed()
+        elif kind == "resize":
+            nd2 = int(op["nd"])
+            nb = self.data.get("nbest")
+            self.data = dict(op["data"])
+            self.nd = nd2
+            self.k = min(self.k, nd2)
+            if nb is not None:
+                self.data["nbest"] = min(int(nb), self.k)
+            # the size of the decision space first, then the space itself, then the data the setters compare with it
+            prob.ndecn = self.k if enc == "subset" else nd2
+            prob.decn_space, prob.decn_space_lower, prob.decn_space_upper = _space_values(enc, nd2, self.k)
+            if self.crit in MATE:
+                prob.decn_space_xmap = attr_value(self.crit, self.data, "decn_space_xmap")
+            self.assign([a for a, _k in crit_attrs(self.crit)])
+            self.data_changed()
+        elif kind == "wt":
+            role = op["role"]
+            if self.ftr is None:
+                self.tr = dict(self.tr)
+                w = op["wt"]
+                self.tr[role + "_wt"] = [w[j % len(w)] for j in range(self.tr[role]["n"])] if isinstance(w, list) else w
+            else:
+                self.ftr = dict(self.ftr)
+                self.ftr[role + "_wt"] = op["wt"]
+                self.recut()
+            self.declare_role(role, only="_wt")
+            did = "wt:" + role
+        elif kind == "kwargs":
+            role = op["role"]
+            spec = dict(self.ftr[role])
+            if spec["kind"] == "affine":
+                spec["kw"] = {"who": role, "shift": op["shift"]} if op["kw"] == "own" else ({} if op["kw"] == "empty" else None)
+            elif spec["kind"] == "dot":
+                spec["w"] = op["w"]
+            elif spec["kind"] == "sumeq":
+                spec["target"] = op["target"]
+            else:
+                did = "kwargs(n/a)"
+            if did == kind:
+                self.ftr = dict(self.ftr)
+                self.ftr[role] = spec
+                self.recut()
+                if spec["kind"] == "affine":
+                    # only the keyword dictionary is assigned; the closure on the problem stays the one declared before
+                    setattr(prob, ROLE_KEY[role][0] + "_trans_kwargs", spec["kw"])
+                else:
+                    self.declare_role(role, only="_trans_kwargs")
+                did = "kwargs:" + spec["kind"]
+        elif kind == "trans":
+            self.ftr = op["ftr"]
+            self.recut()
+            for role in ROLE_KEY:
+                self.declare_role(role)
+        elif kind == "decn_space":
+            prob.decn_space = _space_values(enc, self.nd, self.k, 1 + op["raw"])[0]
+        elif kind == "bounds":
+            _c, prob.decn_space_lower, prob.decn_space_upper = _space_values(enc, self.nd, self.k, 1 + op["raw"])
+        elif kind == "elementwise":
+            prob.elementwise = not prob.elementwise
+        else:
+            raise AssertionError(kind)
+        self.ctx.label("hist:" + did)
+        self.done.append(did)
+
+    # ---- verification -------------------------------------------------------------------------------------------------
+    def vector(self, dec):
+        nd, k, enc = self.nd, self.k, self.enc
+        members = _perm(dec["perm"], nd)[:k]
+        cnt = [0] * nd
+        for j, i in enumerate(members):
+            cnt[i] = int(dec["cnt"][j % len(dec["cnt"])]) if (dec["counts"] and enc in ("integer", "real")) else 1
+        if enc == "subset":
+            x = numpy.array(members, dtype=int)
+        elif enc == "real":
+            x = numpy.array([float(dec["scale"]) * v for v in cnt], dtype=float)
+        else:
+            x = numpy.array(cnt, dtype=int)
+        return D.contributions(cnt), sorted(members), x
+
+    def verify(self, dec):
+        ctx, crit, enc, prob = self.ctx, self.crit, self.enc, self.prob
+        c, members, x = self.vector(dec)
+        ref, tol = oracle(crit, self.data, c, members)
+        after = "after %s: " % ", ".join(self.done) if self.done else "as built: "
+        x0 = x.copy()
+        lat = prob.latentfn(x)
+        ok_shape = isinstance(lat, numpy.ndarray) and lat.ndim == 1 and len(lat) == self.nlat
+        ctx.check(ok_shape, self.pre + "latent.shape",
+                  lambda: "%s%s%s %s: latent %r, expected length %d" % (self.what, after, crit, enc, getattr(lat, "shape", None), self.nlat))
+        if ok_shape and not (crit == "PAU" and ctx.known("F-C05-b", pau_signature(self.data, members))):
+            ctx.check(_close_vec(lat, ref, tol), "%sdefinition.%s" % (self.pre, enc),
+                      lambda: "%s%s%s %s, declared ndecn=%r, x=%s: latent %s, definition on the data now declared %s (tol %s)" % (
+                          self.what, after, crit, enc, prob.ndecn, _brief(x), lat.tolist(), ref, tol))
+        ctx.check(numpy.array_equal(x, x0), self.pre + "latentfn_mutated_x")
+        if not ctx.known("F-C05-d", crit in ("PAFD", "PAU")):
+            ctx.check(int(prob.nlatent) == self.nlat, self.pre + "nlatent",
+                      lambda: "%s%s%s %s: nlatent=%r but the data now declared give %d latent variables" % (self.what, after, crit, enc, prob.nlatent, self.nlat))
+        if ok_shape:
+            check_eval(ctx, crit, enc, prob, self.rec, self.tr, [("history", x)], pre=self.pre, what=self.what + after)
+
+
+def check_hist(case, ctx):
+    crit, data0 = case["crit"], case["data"]
+    nd0 = case["nd"]
+    k0 = _pick_k(case["k_raw"], nd0)
+    ctx.label("crit:" + crit)
+    for enc in sorted(CLASSES.get(crit, {})):
+        data = dict(data0)
+        if crit == "GB":
+            data["nbest"] = 1 + case["decs"][0]["nbest_raw"] % k0
+        nlat = nlat_of(crit, data)
+        tr = fact_tr(case["ftr"], nlat)
+        rec = Recorder()
+        prob = build(crit, enc, {"nd": nd0, "data": data, "tr": tr}, rec, ndecn=k0)
+        h = History(ctx, crit, enc, prob, rec, data, tr, nd0, k0, pre=crit + ".history.", ftr=case["ftr"])
+        h.verify(case["decs"][0])
+        for i, op in enumerate(case["ops"]):
+            h.apply(op)
+            h.verify(case["decs"][i + 1])
+    kinds = [op["op"] for op in case["ops"]]
+    ctx.label("hist:ops=%d" % len(kinds))
+    ctx.nontrivial(any(k in ("ndecn", "attr", "data_all", "resize") for k in kinds))
+
+
+# ---- the same on factory-made problems: the data the problem holds (already compared with the population by the factory
+# clauses) is the model; the subset size and one data attribute are re-declared, the clauses re-checked, and the original
+# values are assigned back before the remaining factory clauses look at the problem -----------------------------------------
+HELD = {"Family": [("ebv", "v"), ("familyid", "fam")], "OCS": [("ebv", "v"), ("C", "C")], "MGR": [("C", "C")], "MEH": [("C", "C")],
+        "L2": [("C", "Ct")], "L1": [("V", "V")], "OPV": [("haplomat", "H")], "GB": [("haplomat", "H"), ("nbestfndr", "nbest")],
+        "PAFD": [("ploidy", "ploidy"), ("geno", "geno"), ("mkrwt", "mkrwt"), ("tfreq", "tfreq")]}
+HELD["PAU"] = HELD["MOGS"] = HELD["PAFD"]
+
+
+def held_data(crit, prob):
+    """the data model read from the public attributes of a problem -> (data, {attribute: object held})"""
+    pairs = [(PROP_NAME[crit], "v")] if crit in LINEAR_ARG else HELD[crit]
+    data, held = {}, {}
+    for attr, key in pairs:
+        v = getattr(prob, attr)
+        held[attr] = v
+        data[key] = v.tolist() if isinstance(v, numpy.ndarray) else int(v)
+    return data, held
+
+
+def _finite(v):
+    if isinstance(v, list):
+        return all(_finite(w) for w in v)
+    return math.isfinite(v)
+
+
+def derived_value(key, v, raw):
+    """a different legal value of the same shape for one data attribute, made from the held one by the harness"""
+    a = numpy.array(v)
+    if key == "v":
+        return (numpy.roll(a, 1, axis=0) * -0.5 + float(1 + raw % 3)).tolist()
+    if key == "C":
+        return (2.0 * a + numpy.eye(len(a))).tolist()
+    if key == "Ct":
+        return (2.0 * a + numpy.eye(a.shape[1])[None, :, :]).tolist()
+    if key == "V":
+        return (numpy.roll(a, 1, axis=2) * 1.5).tolist()
+    if key == "H":
+        return (numpy.roll(a, 1, axis=1) * -2.0).tolist()
+    if key in ("fam", "geno"):
+        return numpy.roll(a, 1, axis=0).tolist()
+    if key == "mkrwt":
+        return (a + 1.0).tolist()
+    if key == "tfreq":
+        return numpy.roll(1.0 - a, 1, axis=0).tolist()
+    raise AssertionError(key)
+
+
+def factory_history(ctx, crit, enc, fname, prob, rec, tr, x):
+    data, held = held_data(crit, prob)
+    if not all(_finite(v) for v in data.values()):
+        ctx.label("fact_hist:skipped_non_finite_data")
+        return
+    first = next(iter(data.values()))
+    nd = len(data["geno"]) if crit in FREQ else (len(data["Ct"][0]) if crit == "L2" else (len(data["V"][0][0]) if crit == "L1" else (
+        len(data["H"][0]) if crit in ("OPV", "GB") else len(first))))
+    k = len(x) if enc == "subset" else int(numpy.count_nonzero(x))
+    raw = int(numpy.asarray(x, dtype=float).sum() * 7) % 1000 + k
+    h = History(ctx, crit, enc, prob, rec, data, tr, nd, k, pre=crit + ".factory.history.", what=fname + " of ")
+    ndecn0, lo0, hi0 = prob.ndecn, prob.decn_space_lower, prob.decn_space_upper
+    dec = lambda j: {"perm": raw + 31 * j, "cnt": [1 + (raw + j) % 3, 2, 1], "counts": bool((raw + j) % 2), "scale": [1.0, 0.37, 3.0][(raw + j) % 3]}
+    pairs = [(a, key) for a, key in ([(PROP_NAME[crit], "v")] if crit in LINEAR_ARG else HELD[crit]) if key not in ("nbest", "ploidy")]
+    attr, key = pairs[(raw // 6) % len(pairs)]
+    # subset problems: another subset size, verified; every third of them and every second problem of the other encodings:
+    # one data attribute replaced, verified (two short histories rather than one long one: an assignment of data must not be
+    # what makes the problem notice the new size)
+    if enc == "subset":
+        h.apply({"op": "ndecn", "raw": raw, "bounds": bool(raw % 2)})
+        h.verify(dec(1))
+    if raw % (3 if enc == "subset" else 2) == 0:
+        h.apply({"op": "attr", "name": attr, "data": {key: derived_value(key, data[key], raw)}})
+        h.verify(dec(2))
+    # back to what the factory made
+    setattr(prob, attr, held[attr])
+    if enc == "subset":
+        prob.ndecn = ndecn0
+        prob.decn_space_lower, prob.decn_space_upper = lo0, hi0
+    if crit == "GB":
+        prob.nbestfndr = held["nbestfndr"]
+    ctx.label("fact_hist:done")
 
 
 # ----------------------------------------------------------------------------------------------------------------
@@ -1877,6 +2339,7 @@ def check_fact_bvmats(case, ctx):
 # registration
 # ----------------------------------------------------------------------------------------------------------------
 QUICK = {"OCS": 180, "L2": 140, "L1": 180, "OPV": 200, "GB": 200, "Family": 220}
+HIST_QUICK = {"OPV": 80, "GB": 80, "L2": 80, "OCS": 120}
 RULE_CTOR = ("generated data + decision vector (0/1 or 0..3 counts, >=1 selected) + weights/transformations; every available "
              "encoding of the class family is built and compared with the rational-arithmetic definition; non-trivial = >=2 distinct "
              "selected elements, a weight != 1, latent vector not all zero; distinct by sha1 of the case")
@@ -1899,6 +2362,17 @@ for _crit in ORDER:
         SUBCHECKS.append(SubCheck("ctor_" + _crit, check_ctor, ctor_case(_crit), quick=QUICK.get(_crit, 240),
                                   thorough=1500, shards_quick=1, shards_thorough=4, rule=RULE_CTOR,
                                   required_labels=("mode:binary",)))
+RULE_HIST = ("one problem object per encoding: built from generated data, verified, then 1-4 re-declarations through public setters "
+             "(subset size ndecn, single data attributes, all data with another number of traits, another number of candidates, weights, "
+             "transformation kwargs, all transformations, decision-space arrays, elementwise flag), verified after each one with a decision "
+             "vector of the size then declared against the definition on the data then declared; non-trivial = the history contains an "
+             "assignment of ndecn or of data")
+for _crit in ORDER:
+    if _crit in CLASSES:
+        SUBCHECKS.append(SubCheck("hist_" + _crit, check_hist, hist_case(_crit), quick=HIST_QUICK.get(_crit, 90), thorough=800,
+                                  shards_quick=1, shards_thorough=4, rule=RULE_HIST,
+                                  required_labels=(
+                                      ("hist:ndecn_larger", "hist:ndecn_smaller") if "subset" in CLASSES[_crit] else ())))
 SUBCHECKS += [
     SubCheck("fact_bvmat", check_fact_bvmat, bvmat_case(), quick=240, thorough=1500, shards_thorough=4, rule=RULE_FACT_EVAL,
              required_labels=("fact_distinct_constraint_kwargs",)),
